@@ -166,7 +166,7 @@ fn cmp_flow(o: &mut Outcome, proto: &str, k: usize, e: &Flow, g: &NetflowCommonF
         (None, None) => {}
         (Some(n), Some(t)) => {
             let got = norm_name(&format!("{:?}", t));
-            if !iana_names(n).contains(&got) {
+            if !crate::refdec::proto_name_ok(n, &got) {
                 let listed = matches!((n, got.as_str()), (0, "unknown") | (1, "hopopt") | (144, "reserved") | (255, "unknown"));
                 if listed {
                     o.hit(format!("proto-name:{}:{}", n, got));
